@@ -90,3 +90,105 @@ def boundary_mutants(data, quick=False):
         # keep every 'pad' (the case that reaches str[len] = 0 with len == capacity) and a third of the others
         ms = [m for i, m in enumerate(ms) if ', pad' in m[2] or i % 3 == 0]
     return ms
+
+
+def legacy_file(hashkind=b'u', prev=None):
+    """a hand-encoded content file in the oldest layout the loader still imports: SNAPCNT1 header, deprecated 'm' map record,
+    'P' parity record, a file whose blocks are a deprecated 'n' (NEW, no hash stored) run followed by a 'b' run, murmur3 hash
+    record ('c' 'u'), an empty dir and a symlink, an info run without info, 'N' + crc.  No writer of the current tree produces
+    'm' / 'n'; the loader must refuse every damaged version of such a file like any other."""
+    import struct
+
+    def bs(s):
+        return vb(len(s)) + s
+    b = b'SNAPCNT1\n\x03\x00\x00'
+    b += b'z' + vb(1024) + b'x' + vb(3)
+    b += b'c' + hashkind + bytes(range(16))
+    if prev:
+        b += b'C' + prev + bytes(range(16, 32))
+    b += b'm' + bs(b'd1') + vb(0) + bs(b'')
+    b += b'P' + vb(0) + vb(1000) + vb(900) + bs(b'')
+    b += b'f' + vb(0) + vb(2500) + vb(1600000000) + vb(124) + vb(4242) + bs(b'old')
+    b += b'n' + vb(0) + vb(2)
+    b += b'b' + vb(2) + vb(1) + bytes(range(100, 116))
+    b += b'r' + vb(0) + bs(b'edir')
+    b += b's' + vb(0) + bs(b'lnk') + bs(b'old')
+    b += b'i' + vb(1600000000) + vb(2) + vb(0) + vb(1) + vb(1) + vb(5)
+    b += b'N'
+    return b + struct.pack('<I', content.crc32c(b))
+
+
+def features(data):
+    """what a content file contains, by the independent decoder: used to show that every record kind / variant the loader knows is
+    present in at least one file that the sweeps damage at every bit and truncate at every length"""
+    st = content.parse(data)
+    fs = {'format_v%d' % st['version'], 'hashsize_%d' % st['hashsize'], 'hash_%s' % st['hash']}
+    if st['prevhash']:
+        fs.add('C_prevhash_record')
+    for m in st['maps']:
+        fs.add('map_with_uuid' if m['uuid'] else 'map_without_uuid')
+    for lev, v in st['levels'].items():
+        for sp in v['splits']:
+            if sp['path'] is None:
+                fs.add('P_parity_record')
+            else:
+                fs.add('Q_split_record')
+                if sp['uuid']:
+                    fs.add('Q_split_with_uuid')
+        if len(v['splits']) > 1:
+            fs.add('Q_several_splits')
+    for d in st['disks'].values():
+        for f in d['files']:
+            fs.add('file_record')
+            if f['size'] == 0:
+                fs.add('zero_size_file')
+            if len(f['sub']) > 3000:
+                fs.add('name_near_PATH_MAX')
+            if f['nsec'] < 0:
+                fs.add('file_without_nsec')
+            for b in f['blocks']:
+                fs.add('block_' + b[0])
+        for l in d['links']:
+            fs.add('hardlink_record' if l['hard'] else 'symlink_record')
+        if d['dirs']:
+            fs.add('dir_record')
+        if d['deleted']:
+            fs.add('hole_record_with_deleted_hashes')
+    for i in st['info']:
+        if i is None:
+            fs.add('info_run_without_info')
+        else:
+            fs.add('info_run')
+            for k in ('bad', 'rehash', 'justsynced'):
+                if i[k]:
+                    fs.add('info_' + k)
+    if len({(None if i is None else (i['time'], i['bad'], i['rehash'], i['justsynced'])) for i in st['info']}) > 1:
+        fs.add('several_info_runs')
+    if data[:8] == b'SNAPCNT1':
+        fs.add('legacy_m_map_and_n_blocks')
+    return fs
+
+
+REQUIRED_FEATURES = ['format_v1', 'format_v2', 'format_v3', 'hashsize_16', 'hashsize_8', 'hashsize_4', 'hash_spooky2', 'hash_murmur3',
+                     'C_prevhash_record', 'map_with_uuid', 'map_without_uuid', 'P_parity_record', 'Q_split_record', 'Q_split_with_uuid',
+                     'Q_several_splits', 'file_record', 'zero_size_file', 'name_near_PATH_MAX', 'block_BLK', 'block_CHG', 'block_REP',
+                     'hardlink_record', 'symlink_record', 'dir_record', 'hole_record_with_deleted_hashes', 'info_run', 'info_run_without_info',
+                     'info_bad', 'info_rehash', 'info_justsynced', 'several_info_runs', 'legacy_m_map_and_n_blocks']
+
+
+def add_split_uuids(data):
+    """a valid variant of a v3 file whose 'Q' records carry a uuid for every split (the tool only writes them on file systems that
+    report one): the empty uuid string after every split path is replaced and the file is re-sealed"""
+    import struct
+    fs = string_fields(data)
+    out = bytearray()
+    last = 0
+    n = 0
+    for k, (off, vl, ln) in enumerate(fs):
+        if ln == 0 and k > 0 and data[fs[k - 1][0] + fs[k - 1][1]:][:5] == b'./par':
+            out += data[last:off] + vb(11) + b'par-uuid-%02d' % n
+            last = off + vl
+            n += 1
+    out += data[last:]
+    body = bytes(out[:-4])
+    return body + struct.pack('<I', content.crc32c(body))
